@@ -39,6 +39,11 @@ EmitAll == PrintT(ToJson([hist |-> hist]))
 """
 
 
+
+def mtime_ns(mt):
+    """model clock -> file time: quarter-second ticks, so that consecutive model times fall within one second"""
+    return (4000 + mt) * 250_000_000
+
 def body(n, v):
     macros = {1: ["m1", "m2"], 2: ["m2", "m3"], 3: []}[v]
     src = "".join('<b metal:define-macro="%s">%s-v%d-%s</b>' % (m, m, v, n) for m in macros)
@@ -71,7 +76,7 @@ def _replay(args):
                 p = os.path.join(dirs[d], name + ".pt")
                 with open(p, "w") as f:
                     f.write(body(name, v))
-                os.utime(p, (1000 + mt, 1000 + mt))
+                os.utime(p, ns=(mtime_ns(mt), mtime_ns(mt)))
             # initial files: replay derives them from the first-state dump
             for key, val in rec["init"].items():
                 pass
@@ -91,7 +96,7 @@ def _replay(args):
                         write(op["d"], op["n"], op["v"], op["mt"])
                     elif k == "touch":
                         p = os.path.join(dirs[op["d"]], op["n"] + ".pt")
-                        os.utime(p, (1000 + op["mt"], 1000 + op["mt"]))
+                        os.utime(p, ns=(mtime_ns(op["mt"]), mtime_ns(op["mt"])))
                     elif k == "open":
                         tpls[op["t"]] = Counting(os.path.join(dirs[op["d"]], op["n"] + ".pt"), auto_reload=op["auto"])
                     elif k == "render":
@@ -262,5 +267,5 @@ def run(ctx):
     ctx.rule = ("histories over {write version 1-3 (new mtime), touch, open with auto_reload on/off, render, list macros, "
                 "use macro m1/m3, load name} on 2 files x 2 search directories: all histories of length %d (BFS) plus "
                 "simulated histories of length 8; 13 loader resolution rules checked directly; non-trivial = every history" % (3 if quick else 4))
-    ctx.assumptions += ["modification times are set with os.utime, every write gets a new time (a rewrite within the same timestamp is outside)",
+    ctx.assumptions += ["modification times are set with os.utime in steps of a quarter of a second (two saves within one second are distinct times), every write gets a new time (a rewrite within the same timestamp is outside)",
                         "versions differ in body, macro set and XML-ness"]
